@@ -44,7 +44,9 @@ def mag_literals(tier):
         f *= k
         ns.add(f)
     ns |= {2 ** 64 - 1, 2 ** 64 - 59, 2 ** 63 - 25, 2 ** 32 * (2 ** 32 - 5), 4294967291 * 4294967279, 65521 ** 4, 65537 ** 3, 3 ** 40, 5 ** 27, 7 ** 22, 1000000007 * 998244353,
-           547 * 569 * 727 * 1237, 2 ** 10 * 5 ** 10 * 3, 10 ** 10 * 4294967291, 10 ** 15 * 18446, 2147483647 ** 2}
+           547 * 569 * 727 * 1237, 2 ** 10 * 5 ** 10 * 3,
+           # strong pseudoprimes to bases {2,3}, {2,3,5}, {2,3,5,7} and the classic Lucas / Fibonacci pseudoprimes, as literals
+           1373653, 1530787, 1987021, 2284453, 3116107, 5173601, 6787327, 11541307, 13694761, 15978007, 16070429, 16879501, 25326001, 3215031751, 2152302898747, 3474749660383, 5459, 5777, 10877, 16109, 10 ** 10 * 4294967291, 10 ** 15 * 18446, 2147483647 ** 2}
     pool = [2, 3, 5, 7, 11, 13, 101, 541, 547, 1009, 7919, 65521, 65537, 1000003, 2147483647, 4294967291]
     for _ in range(120 if tier == "quick" else 1200):
         n = 1
